@@ -15,6 +15,7 @@
 //!   addp from key prov                  inbound ADD_PROVIDER
 //!   getp from key                       inbound GET_PROVIDERS
 //!   lput key size tag exp | lrem key | laddp key prov exp | lremp key prov      local store operations
+//!   bput key size tag exp | brem key | bprov key | bstop key      Behaviour::put_record / remove_record / start_providing / stop_providing
 use std::{
     num::NonZeroUsize,
     task::Poll,
@@ -26,7 +27,7 @@ use libp2p_identity::PeerId;
 use libp2p_kad::{
     store::{MemoryStore, MemoryStoreConfig, RecordStore},
     verif::{HandlerEvent, HandlerIn, RequestId},
-    Behaviour, Config, ConnectionType, Event, InboundRequest, KBucketKey, KadPeer, ProviderRecord, Record, RecordKey, StoreInserts,
+    Behaviour, Config, ConnectionType, Event, InboundRequest, KBucketKey, KadPeer, ProviderRecord, Quorum, Record, RecordKey, StoreInserts,
 };
 use libp2p_swarm::{ConnectionId, NetworkBehaviour, NotifyHandler, StreamProtocol, ToSwarm};
 use rand::Rng;
@@ -297,6 +298,22 @@ impl Rig {
                 ev["prov"] = json!(p);
                 self.b.store_mut().remove_provider(&key(k), &peer(p));
             }
+            // the application's own calls on the Behaviour (they also start queries, whose traffic is ignored here)
+            "bput" => {
+                let (size, tag, exp) = (g("size").max(0) as usize, g("tag") as u8, g("exp"));
+                let mut rec = Record::new(key(k), vec![tag; size]);
+                rec.publisher = Some(peer(7)); // overwritten with the local node by put_record
+                rec.expires = if exp != 0 { Some(at(now0, exp)) } else { None };
+                let (eh, ex) = self.exp_json(rec.expires);
+                ev["size"] = json!(size);
+                ev["tag"] = json!(tag);
+                ev["rh"] = json!(if eh { 1 } else { 0 });
+                ev["rexp"] = json!(ex);
+                ev["res"] = json!(self.b.put_record(rec, Quorum::One).is_ok());
+            }
+            "brem" => self.b.remove_record(&key(k)),
+            "bprov" => ev["res"] = json!(self.b.start_providing(key(k)).is_ok()),
+            "bstop" => self.b.stop_providing(&key(k)),
             _ => return json!({"e": "skip"}),
         }
         let now1 = Instant::now();
@@ -415,8 +432,12 @@ fn gen_random(rng: &mut rand::rngs::StdRng) -> Value {
             60..=74 => json!({"a": "getp", "from": from, "key": k}),
             75..=82 => json!({"a": "lput", "key": k, "size": size, "tag": tag, "exp": exp}),
             83..=85 => json!({"a": "lrem", "key": k}),
-            86..=95 => json!({"a": "laddp", "key": k, "prov": rng.gen_range(0..5), "exp": exp}),
-            _ => json!({"a": "lremp", "key": k, "prov": rng.gen_range(0..5)}),
+            86..=91 => json!({"a": "laddp", "key": k, "prov": rng.gen_range(0..5), "exp": exp}),
+            92..=93 => json!({"a": "lremp", "key": k, "prov": rng.gen_range(0..5)}),
+            94..=95 => json!({"a": "bput", "key": k, "size": size, "tag": tag, "exp": exp}),
+            96 => json!({"a": "brem", "key": k}),
+            97..=98 => json!({"a": "bprov", "key": k}),
+            _ => json!({"a": "bstop", "key": k}),
         });
     }
     json!({
@@ -447,6 +468,10 @@ fn exhaustive(out: &mut Out, n: usize) {
         json!({"a": "laddp", "key": 0, "prov": 2, "exp": -7}),
         json!({"a": "laddp", "key": 1, "prov": 0, "exp": -7}),
         json!({"a": "lremp", "key": 0, "prov": 0}),
+        json!({"a": "bprov", "key": 0}),
+        json!({"a": "bstop", "key": 0}),
+        json!({"a": "bput", "key": 0, "size": 1, "tag": 2, "exp": 0}),
+        json!({"a": "brem", "key": 0}),
     ];
     let cfgs = [(false, 0i64), (false, 600), (true, 600)];
     let mut idx = vec![0usize; n];
